@@ -195,7 +195,8 @@ func runC20(src sim.Source, o Opts) *Result {
 		case model.KNoRoute:
 			p.Path = "/nope/" + strconv.Itoa(q)
 		case model.KNoMethod:
-			p.Method = "POST"
+			// (verbs are case-sensitive tokens: "get" is not GET - the router answers 405, the record names "get")
+			p.Method = sim.Pick(src, "othermethod", []string{"POST", "POST", "get", "Post", "dELETE", "patch", "Put"})
 		case model.KRedirect:
 			p.Path += "/"
 		case model.KOptions:
